@@ -24,6 +24,7 @@ TEXT = [
  ("{a:1 b:2}", "struct members without comma"), ("$99", "symbol id beyond max_id"), ("$99::1", "annotation symbol id beyond max_id"),
  ("{$99:1}", "field symbol id beyond max_id"), ("a:::1", "three colons"), ("{a::1}", "annotation where a field name is expected"),
  ("$ion_symbol_table::{imports:[{name:\"x\",version:1}]} 1", "import without max_id and without catalog match"),
+ ("(a . :: b)", "the operator . as an annotation"), ("(.::1)", "the operator . as an annotation"), ("(+ :: 1)", "an operator as an annotation"),
  ("\"\\uD800\"", "lone high surrogate escape"), ("\"\\uDC00\"", "lone low surrogate escape"), ("\"\\U00110000\"", "escape beyond U+10FFFF"),
 ]
 TEXT_BYTES = [
@@ -44,6 +45,8 @@ BIN = [
  ("d3ff2101", "field id beyond max_id"), ("82c328", "string with invalid UTF-8"), ("81ff", "string with invalid UTF-8 byte"),
  ("6380e40d", "timestamp month 13"), ("6380e400", "timestamp month 0"), ("6480e4829e", "timestamp February 30"), ("6580e4818198", "timestamp hour without minute"),
  ("6680e481819880", "timestamp hour 24"), ("6680e4818180bc", "timestamp minute 60"), ("6780e481818080bc", "timestamp second 60"),
+ ("6180", "timestamp with an offset and no year"), ("6e820181", "timestamp with an offset and no year (long form)"),
+ ("6a800fd08181808080ca81", "timestamp fraction -1d-10 (negative, rounds to zero nanoseconds)"), ("6a800fd08181808080c181", "timestamp fraction -1d-1"),
  ("62800f", "timestamp year unterminated varuint"), ("60", "empty timestamp"), ("6280a0", "timestamp year 0 ... (VarUInt 32? no: year 32)"),
  ("6780e481818080" + "80" , "timestamp ok control (second 0)"),
  ("b3210100", "list whose content does not end at its declared end (NOP ok control)"),
